@@ -325,7 +325,11 @@ def src(n, kn=DEFAULT, ind=0, prec=0):
     if k == "mem":
         return f"mem({src(a[0], kn, ind)})"
     if k == "delay":
-        return f"delay({a[0]}.0, {src(a[1], kn, ind)}, {src(a[2], kn, ind)})"
+        # the maximum is a literal that the compiler truncates to a whole number of samples (`max_time as u64`, for the state
+        # cell AND for the ring the back ends open): written with a fractional part at 3 sites in 7 (seeded change C03d: the
+        # instruction rounded up while the layout truncated, so `delay(2.5, x, t)` overran its cell); the model gets N
+        frac = (".0", ".5", ".0", ".25", ".0", ".75", ".0")[a[3] % 7] if isinstance(a[3], int) else ".0"
+        return f"delay({a[0]}{frac}, {src(a[1], kn, ind)}, {src(a[2], kn, ind)})"
     if k == "now":
         return "now"
     if k == "sr":
